@@ -88,19 +88,11 @@ def cms_regions(d):
     return {"cc_includes": _texts(inc.split("\n"))}
 
 
-_LETTERS = {
-    "allA": lambda f: ["A"], "allAB": lambda f: ["A", "B"], "allBA": lambda f: ["B", "A"],
-    "incl": lambda f: ["C"] if f in ("body_includes", "header_includes") else [],
-    "members": lambda f: ["A", "C"] if f in ("private_members", "instance_initialization", "ctor_lines") else [],
-    "hostile": lambda f: ["H"], "empty": lambda f: [], "emptylists": lambda f: [],
-}
-
-
 def block_md(b, lines):
     """The metadata dict for an abstract block; `lines` is the spec's text table (exported by TLC)."""
     md = {"metadata_type": "inject_code", "name": b["name"]}
-    for f in lines:
-        ls = [lines[f][x] for x in _LETTERS[b["shape"]](f)]
+    for f in lines[b["shape"]]:
+        ls = list(lines[b["shape"]][f])
         if ls or b["shape"] == "emptylists":
             md[f] = ls
     if b["bad"]:
@@ -176,7 +168,7 @@ def run(tier, only=None):
         "evaluations": len(recs),
         "distinct_nontrivial": len({json.dumps(r["blocks"]) + r["backend"] for r in recs
                                     if len(r["blocks"]) >= 2 or any(b["shape"] not in ("empty", "emptylists") for b in r["blocks"])}),
-        "rule": "block lists: every list up to MaxLen of MCInject_%s.cfg over 2 names x 8 shapes (all fields one/two lines in both orders, includes only, "
+        "rule": "block lists: every list up to MaxLen of MCInject_%s.cfg over 2 names x 9 shapes (all fields one/two lines in both orders, includes only, one text shared by two fields, "
                 "members only, template-hostile text, empty, empty lists) x unknown-field flag (%d enumerated by TLC, %d sent; every list to ATLAS, every "
                 "6th also to a CMS backend); non-trivial = >= 2 blocks or a block with content" % (tier, total, len(lists)),
         "exhaustive": total <= cap,
